@@ -32,6 +32,7 @@ for p in sorted(glob.glob(os.path.join(driver.REPLAY_DIR, prop, "*.case"))):
     if not m: continue
     key = m.group(1).strip()
     if key in have: continue
+    if not re.search(r"^kase ", txt, re.M): continue   # stale (pre-kase) file: decoding may have changed
     if key not in best or len(txt) < len(open(best[key]).read()): best[key] = p
 for key, p in sorted(best.items()):
     mod, cfg = driver.case_meta(p)
